@@ -119,6 +119,13 @@ class AutoAck(Peer):
             self.world.inject(self.addr, src, rc.encode((rc.ACK, 0, msg[2], b"", [], b"")))
 
 
+class SelectiveAck(Peer):
+    """Acknowledges separate responses except those to request X (token 0f): that acknowledgement is lost for good."""
+    def on_message(self, src, msg, dg):
+        if msg[0] == rc.CON and msg[1] >= 64 and msg[3] != b"\x0f":
+            self.world.inject(self.addr, src, rc.encode((rc.ACK, 0, msg[2], b"", [], b"")))
+
+
 def serve(w, horizon):
     while True:
         for dg in list(w.pool):
@@ -304,8 +311,10 @@ def slow_pair(res, first, second, ack_delay, reaction="ack"):
         w.dispose()
 
 
-def isolation_run(x_outcome, x_when, x_peer, x_slow):
-    """Neighbours: slow GET at t=0, fast GET at t=0.25, later GET at t=2.0; X (POST /x) at x_when or absent."""
+def isolation_run(x_outcome, x_when, x_peer, x_slow, x_acked=True):
+    """Neighbours: slow GET at t=0, fast GET at t=0.25, later GET at t=2.0; X (POST /x) at x_when or absent.
+    x_acked=False: the acknowledgement of X's separate response never arrives (the run then lasts until that exchange has
+    been given up)."""
     global OUTCOMES
     OUTCOMES = OUTCOMES or outcomes()
     w = World()
@@ -316,8 +325,8 @@ def isolation_run(x_outcome, x_when, x_peer, x_slow):
         if x_outcome is not None:
             site.add_resource(["x"], make_resource(OUTCOMES[x_outcome][0], 0.3 if x_slow else 0.0))
         w.add_context("srv", *SRV, site=site)
-        w.add_peer(AutoAck("p1", *P1))
-        w.add_peer(AutoAck("p2", *P2))
+        w.add_peer((AutoAck if x_acked else SelectiveAck)("p1", *P1))
+        w.add_peer((AutoAck if x_acked else SelectiveAck)("p2", *P2))
         evs = [(0.0, P1, (rc.CON, 1, 0x3101, b"\x01", [(11, b"nslow")], b"")),
                (0.25, P1, (rc.NON, 1, 0x3102, b"\x02", [(11, b"nfast")], b"")),
                (2.0, P1, (rc.CON, 1, 0x3103, b"\x03", [(11, b"nfast")], b""))]
@@ -329,7 +338,7 @@ def isolation_run(x_outcome, x_when, x_peer, x_slow):
             serve(w, t)
             w.loop.advance_to(t)
             w.inject(peer, SRV, rc.encode(m))
-        serve(w, 5.0)
+        serve(w, 5.0 if x_acked else 120.0)
         view = {}
         for tok in (b"\x01", b"\x02", b"\x03"):
             view[tok.hex()] = [(m[0], m[1], m[3], m[4], m[5]) for m in finals(w, P1, tok)]
@@ -365,19 +374,24 @@ def job(arg):
         res.sample({"deep": list(items[0])})
     else:
         base, _ = isolation_run(None, 0, P1, False)
-        for (o, when, peer, slow) in items:
-            view, excs = isolation_run(o, when, peer, slow)
+        for it in items:
+            (o, when, peer, slow), acked = it[:4], (it[4] if len(it) > 4 else True)
+            view, excs = isolation_run(o, when, peer, slow, acked)
             res.evaluations += 1
             res.traces += 1
-            case = {"isolation": [o, when, list(peer), slow]}
+            case = {"isolation": [o, when, list(peer), slow, acked]}
+            if not acked and peer == P1 and view.get("01") in ([], base["01"]):
+                # don't-care (C14): the neighbour's own separate CON response had to wait behind X's unacknowledged one to the
+                # same peer and is dropped with it when that exchange is given up - or it made it out before / afterwards
+                view = dict(view, **{"01": base["01"]})
             if view != base:
                 res.violate(Violation("failure-affects-neighbour", base, view, "pipe.py", case, key="neighbour"))
             if excs:
                 res.violate(Violation("loop-exception", "none", excs, "loop", case, key="iso-exc"))
-            res.states.add(core.digest((o, when, peer, slow, sorted(view.items()))))
+            res.states.add(core.digest((o, when, peer, slow, acked, sorted(view.items()))))
             res.transitions += 4
             res.outcomes.add(core.digest(("iso", sorted(view.items()))))
-            res.signatures.add(core.digest(("iso", o, when, peer, slow)))
+            res.signatures.add(core.digest(("iso", o, when, peer, slow, acked)))
         res.sample({"isolation(outcome,when,peer,slow)": list(items[0])})
     return res
 
@@ -413,6 +427,9 @@ def run(tier, seed, jobs):
     work = [("cells", cells[i::48]) for i in range(48)]
     failing = [n for n in names if O[n][1] == "bare500"] + ["raise-BadRequest", "raise-NotFound-text"]
     iso = [(o, when, peer, slow) for o in failing for when in (-0.05, 0.2, 0.7) for peer in (P1, P2) for slow in (False, True)]
+    # the acknowledgement of X's separate response is lost for good: piggy-backed and NON answers to the neighbours must not wait
+    iso += [(o, when, peer, True, False) for o in failing[:4] + ["ret-payload", "raise-NotFound-text"] for when in (-0.05, 0.2, 0.7, 1.8)
+            for peer in (P1, P2)]
     work += [("iso", iso[i::16]) for i in range(16)]
     work.append(("reuse", None))
     if tier == "thorough":
@@ -422,6 +439,7 @@ def run(tier, seed, jobs):
         work += [("reuse-deep", deep[i::64]) for i in range(64)]
         iso2 = [(o, when, peer, slow) for o in names for when in (-0.05, 0.0, 0.05, 0.1, 0.2, 0.3, 0.5, 0.7, 1.9, 2.0)
                 for peer in (P1, P2) for slow in (False, True)]
+        iso2 += [(o, when, peer, True, False) for o in names for when in (-0.05, 0.0, 0.2, 0.5, 0.7, 1.6, 1.8, 2.0) for peer in (P1, P2)]
         work += [("iso", iso2[i::64]) for i in range(64)]
     res = core.prun(job, work, jobs)
     res.scenarios["table"] = {"outcomes": len(names), "cells": len(cells), "isolation_runs": len(iso)}
@@ -437,9 +455,10 @@ def replay(case, scenario, seed):
         token_reuse(res, *case["token_reuse"])
         return [v for v, n in res.violations.values()]
     if "isolation" in case:
-        o, when, peer, slow = case["isolation"]
+        o, when, peer, slow = case["isolation"][:4]
+        acked = case["isolation"][4] if len(case["isolation"]) > 4 else True
         base, _ = isolation_run(None, 0, P1, False)
-        view, excs = isolation_run(o, when, tuple(peer), slow)
+        view, excs = isolation_run(o, when, tuple(peer), slow, acked)
         print("     baseline:", base)
         print("     with X:  ", view, excs)
         return [Violation("failure-affects-neighbour", base, view, "pipe.py", case)] if view != base or excs else []
